@@ -20,25 +20,34 @@ MkWordBits(pairs) == LET RECURSIVE f(_) f(k) == IF k = 0 THEN Zero ELSE SetBitW(
 
 CodeBase == 64
 \* menu m: which instruction forms fill slots 1..5:  "a" = ADDS Rk,#1 (16-bit), "w" = ADD.W Rk,Rk,#1 (32-bit), "c" = CMP R6,#0 then nothing
+\*         "s" = SVC #0 (handler at VBAR+8: MOVS PC, LR), "l" = LDR R0,[R7] with R7 = 1 and SCTLR.A = 1: alignment fault, the handler
+\*         (VBAR+16: MOV R7,#192 ; SUBS PC,LR,#8) repairs R7 and re-executes the LDR under the restored IT state
 Menu(m) == CASE m = 0 -> <<"a", "a", "a", "a", "a">> [] m = 1 -> <<"w", "a", "w", "a", "a">> [] m = 2 -> <<"a", "c", "a", "a", "a">>
+             [] m = 3 -> <<"a", "s", "a", "a", "a">> [] m = 4 -> <<"s", "a", "a", "s", "a">> [] m = 5 -> <<"a", "l", "a", "a", "a">>
+             [] m = 6 -> <<"a", "a", "l", "s", "a">>
 SlotBytes(form, k) ==
   CASE form = "a" -> <<1, 48 + k>>                                   \* 0x3k01  ADDS Rk, #1
     [] form = "w" -> <<k, 241, 1, k>>                                \* 0xF10k 0k01  ADD.W Rk, Rk, #1
     [] form = "c" -> <<0, 46>>                                       \* 0x2E00  CMP R6, #0
+    [] form = "s" -> <<0, 223>>                                      \* 0xDF00  SVC #0
+    [] form = "l" -> <<56, 104>>                                     \* 0x6838  LDR R0, [R7]
 RECURSIVE Cat(_, _)
 Cat(seqs, k) == IF k > Len(seqs) THEN <<>> ELSE seqs[k] \o Cat(seqs, k + 1)
 Program(fc, mask, m) == <<fc * 16 + mask, 191>> \o Cat([k \in 1..5 |-> SlotBytes(Menu(m)[k], k)], 1)     \* 0xBFxx IT
 ProgLen(m) == 2 + (IF m = 1 THEN 14 ELSE 10)
 \* IRQ vector (VBAR = 128, offset 24): SUBS PC, LR, #4 (ARM, E25EF004), handler runs in ARM state (SCTLR.TE = 0)
+\* 136: E1B0F00E MOVS PC,LR (SVC) ; 140: 0 ; 144: E3A070C0 MOV R7,#192 ; 148: E25EF008 SUBS PC,LR,#8 (data abort) ; 152: E25EF004 (IRQ)
+Handlers == <<14, 240, 176, 225,  0, 0, 0, 0,  192, 112, 160, 227,  8, 240, 94, 226,  4, 240, 94, 226>>
+HasL(m) == \E k \in 1..5 : Menu(m)[k] = "l"
 MemImage(fc, mask, m) ==
   LET prog == Program(fc, mask, m) IN
   [j \in 1..256 |-> IF j - 1 >= CodeBase /\ j - 1 < CodeBase + Len(prog) THEN prog[j - CodeBase]
-                    ELSE IF j - 1 = 152 THEN 4 ELSE IF j - 1 = 153 THEN 240 ELSE IF j - 1 = 154 THEN 94 ELSE IF j - 1 = 155 THEN 226 ELSE 0]
+                    ELSE IF j - 1 >= 136 /\ j - 1 < 156 THEN Handlers[j - 136] ELSE 0]
 S0(fc, mask, fl, m) ==
-  [R |-> [r \in RNames |-> IF r = "PC" THEN <<0, CodeBase>> ELSE IF r = "R6usr" THEN <<0, 1>> ELSE Zero],
+  [R |-> [r \in RNames |-> IF r = "PC" THEN <<0, CodeBase>> ELSE IF r \in {"R6usr", "R7usr"} THEN <<0, 1>> ELSE Zero],
    cpsr |-> WOr(<<fl * 4096, 32 + 16>>, Zero),                       \* NZCV = fl, T = 1, mode User, I = 0
    spsr |-> [mm \in SpsrNames |-> Zero], elr |-> Zero,
-   sys |-> [SCTLR |-> MkWordBits(<< <<22, 1>> >>), SCR |-> Zero, HCR |-> Zero, HSCTLR |-> Zero, VBAR |-> <<0, 128>>, MVBAR |-> Zero,
+   sys |-> [SCTLR |-> MkWordBits(<< <<22, 1>>, <<1, IF HasL(m) THEN 1 ELSE 0>> >>), SCR |-> Zero, HCR |-> Zero, HSCTLR |-> Zero, VBAR |-> <<0, 128>>, MVBAR |-> Zero,
             HVBAR |-> Zero, NSACR |-> Zero, DFSR |-> Zero, DFAR |-> Zero, MPUIR |-> Zero],
    mem |-> [devs |-> <<[b |-> Zero, n |-> 256]>>, base |-> <<MemImage(fc, mask, m)>>, w |-> <<>>],
    ev |-> [evreg |-> 0, wfe |-> 0, wfi |-> 0],
@@ -59,7 +68,7 @@ TakeIRQ == /\ sc.stage = 1 /\ ~irqdone /\ sc.irqat # 0 /\ steps = sc.irqat - 1 /
 Step == /\ sc.stage = 1 /\ (irqdone \/ sc.irqat = 0 \/ steps # sc.irqat - 1 \/ ~InProgram)
         /\ s.R.PC # EndPC
         /\ LET r == StepF(s, [n |-> "Step"]) IN
-           /\ r.exact /\ r.out = "completed"
+           /\ r.exact /\ r.out \in {"completed", "svc", "dabort"}
            /\ s' = [r.s EXCEPT !.mem = Normalize(@)]
         /\ steps' = IF InProgram THEN steps + 1 ELSE steps
         /\ UNCHANGED <<sc, irqdone>>
@@ -78,7 +87,14 @@ CmpSlot == IF sc.m = 2 THEN 2 ELSE 0
 CmpRan == CmpSlot # 0 /\ (CmpSlot > BLen \/ ConditionHolds(Pat[CmpSlot], sc.fl))
 FlagsAt(k) == IF CmpSlot # 0 /\ k > CmpSlot /\ CmpRan THEN 2 ELSE sc.fl
 Executes(k) == k > BLen \/ ConditionHolds(Pat[k], FlagsAt(k))
-Expected(k) == IF Menu(sc.m)[k] = "c" THEN 0 ELSE IF Executes(k) THEN 1 ELSE 0
+Expected(k) == IF Menu(sc.m)[k] \in {"c", "s", "l"} THEN 0 ELSE IF Executes(k) THEN 1 ELSE 0
+\* IT state register while slot k is the next instruction: k - 1 advances of firstcond:mask
+RECURSIVE ITAt(_)
+ITAt(k) == IF k = 1 THEN sc.fc * 16 + sc.mask ELSE ITAdvance(ITAt(k - 1))
+SlotAt(a) == CHOOSE k \in 1..6 : CodeBase + 2 * k = a           \* 16-bit menus only: slot k sits at CodeBase + 2k
+LastSvcSlot == IF \E k \in 1..5 : Menu(sc.m)[k] = "s" /\ Executes(k)
+               THEN CHOOSE k \in 1..5 : Menu(sc.m)[k] = "s" /\ Executes(k) /\ \A j \in (k + 1)..5 : ~(Menu(sc.m)[j] = "s" /\ Executes(j))
+               ELSE 0
 
 \* never stuck: every state inside the program can step exactly (fetch, decode, execute are specified)
 Progress == (Running /\ s.R.PC # EndPC) => ENABLED (Step \/ TakeIRQ)
@@ -92,6 +108,17 @@ FlagsKeptInBlock == (Running /\ InProgram /\ PM(s.cpsr) = USR /\ InITBlock(PIT(s
 CondOK == (Running /\ InProgram /\ PM(s.cpsr) = USR /\ InITBlock(PIT(s.cpsr))) =>
             \E k \in 1..BLen : ITCond(PIT(s.cpsr)) = Pat[k] /\ (LastInITBlock(PIT(s.cpsr)) <=> k = BLen)
 \* exception entry saves the IT state and clears it
-IRQSavesIT == (Running /\ PM(s.cpsr) = IRQ) => PIT(s.cpsr) = 0
+IRQSavesIT == (Running /\ PM(s.cpsr) # USR) => PIT(s.cpsr) = 0
+\* a supervisor call is taken exactly when its slot's condition holds; it saves the IT state *advanced* past the SVC and its own return address
+SvcOK == /\ (Running /\ PM(s.cpsr) = SVC) =>
+              LET k == SlotAt(Lo(s.R.LRsvc)) - 1 IN
+                /\ Menu(sc.m)[k] = "s" /\ Executes(k)
+                /\ PIT(s.spsr.svc) = ITAt(k + 1) /\ PM(s.spsr.svc) = USR
+         /\ AtEnd => s.R.LRsvc = (IF LastSvcSlot = 0 THEN Zero ELSE <<0, CodeBase + 2 * LastSvcSlot + 2>>)
+\* a data abort saves the IT state of the aborting instruction itself (not advanced) and LR = instruction + 8; the LDR is re-executed
+AbortOK == /\ (Running /\ PM(s.cpsr) = ABT) =>
+                LET k == SlotAt(Lo(s.R.LRabt) - 8) IN
+                  Menu(sc.m)[k] = "l" /\ Executes(k) /\ PIT(s.spsr.abt) = ITAt(k) /\ PM(s.spsr.abt) = USR
+           /\ AtEnd => Rget(s, 7) = (IF \E k \in 1..5 : Menu(sc.m)[k] = "l" /\ Executes(k) THEN <<0, 192>> ELSE <<0, 1>>)
 Emit == (GEN /\ AtEnd) => PrintT(ToJson(sc))
 =============================================================================
